@@ -201,13 +201,13 @@ pub fn exec_fmt(case: &str, tag: &str, fmt: &str) -> Exec {
     ex.tags.push(format!("kind:{kind}"));
     ex.tags.push(format!("opts:{}:{}", level, flags));
     let text = String::from_utf8(bytes.clone());
-    let unsupported = fmt == "pdb" && !o.atomic_only && text.as_ref().map_or(false, |t| split_lines(t).iter().any(|l| l.len() > 6 && l.starts_with("SEQRES")));
+    let has_seqres = fmt == "pdb" && !o.atomic_only && text.as_ref().map_or(false, |t| split_lines(t).iter().any(|l| l.len() > 6 && l.starts_with("SEQRES")));
     ex.req = match &text {
-        Ok(_) if !unsupported => format!("{} read {} {} {}", if fmt == "pdb" { "pdb" } else { "cif" }, level, flags, enc_bytes(&bytes)),
+        Ok(_) => format!("{} read {} {} {}", if fmt == "pdb" { "pdb" } else { "cif" }, level, flags, enc_bytes(&bytes)),
         _ => "-".into(),
     };
     if text.is_err() { ex.tags.push("invalid-utf8".into()); }
-    if unsupported { ex.tags.push("seqres-not-modelled".into()); }
+    if has_seqres { ex.tags.push("seqres-records:yes".into()); }
     let diags = match &r {
         Read::Panic(m) => {
             ex.failures.push(Failure::new("reader-panicked", m.chars().take(160).collect::<String>()).feat("format", fmt).feat("site", panic_site(m)));
